@@ -353,15 +353,20 @@ Definition all_done (P : nat) (st : nat -> list event) : bool :=
   forallb (fun r => match st r with [] => true | _ => false end) (seq 0 P).
 
 (** greedy scheduler with fuel, for the driver and the refutations: repeatedly fire the first enabled communicator;
-    returns (true, _) if every rank finished, (false, stuck state) if no communicator is enabled (deadlock) *)
-Fixpoint coll_exec (col : colouring) (P : nat) (fuel : nat) (st : nat -> list event) : bool * (nat -> list event) :=
+    returns (true, schedule, _) if every rank finished, (false, schedule, stuck state) if ranks are left but no
+    communicator is enabled (deadlock) or the fuel ran out (fuel = total number of events suffices) *)
+Fixpoint coll_exec (col : colouring) (P : nat) (fuel : nat) (st : nat -> list event)
+  : bool * list commid * (nat -> list event) :=
   match fuel with
-  | 0 => (all_done P st, st)
+  | 0 => (all_done P st, [], st)
   | S f =>
-      if all_done P st then (true, st)
+      if all_done P st then (true, [], st)
       else match find (fun cm => match coll_step col P cm st with Some _ => true | None => false end) (comms_of col P) with
-           | Some cm => match coll_step col P cm st with Some st' => coll_exec col P f st' | None => (false, st) end
-           | None => (false, st)
+           | Some cm => match coll_step col P cm st with
+                        | Some st' => let '(ok, sched, fin) := coll_exec col P f st' in (ok, cm :: sched, fin)
+                        | None => (false, [], st)
+                        end
+           | None => (false, [], st)
            end
   end.
 
